@@ -596,11 +596,16 @@ def execute(case: dict) -> tuple[bool, list[str]]:
 
         # ---- close code
         peer_codes = w.peer.sent_close_codes
-        faulty = any(e[0] in ("eof", "rst", "cancel", "tick") or (e[0] == "peer" and e[1] == "garbage") for e in sched)
+        # (an application cancelling its own pending receive() - a poll with a deadline - is no fault of the session: a clean
+        # handshake afterwards is a clean handshake)
+        faulty = any(e[0] in ("eof", "rst", "tick") or (e[0] == "cancel" and e[1] != "recv") or (e[0] == "peer" and e[1] == "garbage") for e in sched)
         consumer = any(e[0] in ("recv", "close") for e in sched)
         code = w.ws.close_code
         delivered = w.peer_t.total_delivered == w.peer_t.total_written  # the peer's Close actually reached aiohttp
-        if peer_codes and len(set(peer_codes)) == 1 and not faulty and consumer and closes and cfg["heartbeat"] is None and delivered:
+        # after a cancelled receive() the session is as healthy as before: close() has to wait for the peer's Close like any
+        # other close() (not reading it is the failure, not an excuse)
+        recv_cancelled = any(e[0] == "cancel" and e[1] == "recv" for e in sched)
+        if peer_codes and len(set(peer_codes)) == 1 and not faulty and consumer and closes and cfg["heartbeat"] is None and (delivered or (recv_cancelled and w.side == "client")):
             # a server close() that races a pending receive() closes the transport without reading the peer's Close (pinned by
             # test_concurrent_close): the Close may sit unread in the queue, so the handshake is not "clean" -> DON'T-CARE here,
             # MUST-1006 below when the peer sent none
